@@ -307,3 +307,45 @@ def _(user_cfg, pandora_machine):
     # followed by the checked pipeline section)
     ensures("both_checked_sections_returned", ncalls("concat_conf") == 1,
             call_arg_mentions("concat_conf", 0, 0, "[check_input_section(get_config_input(user_cfg)), check_pipeline_section(get_config_pipeline(user_cfg), "))
+
+
+# (the module constant default_short_configuration_input is rendered by its VALUE in the trace: the clauses below therefore also pin
+# the documented input defaults -- nodata -9999, no mask / classification / segmentation, no right disparity)
+# MERGED = update_conf({'input': {'left': {'nodata': -9999, 'mask': None, 'classif': None, 'segm': None}, 'right': {'nodata': -9999, 'mask': None, 'classif': None, 'segm': None, 'disp': None}}}, user_cfg)
+
+
+# C17 ("malformed inputs are refused before any matching starts") / C05: check_input_section -- the user's input section is laid
+# over the defaults; the schema is chosen by the FORM of the two disparity entries of the merged configuration (left a list ->
+# integer-disparity schema; else right a path -> grids/grids; else grids/none); the schema is validated on the merged configuration
+# BEFORE the custom checks; each side's disparity is checked against ITS OWN image; the images are checked on the merged input
+# section; the merged configuration is what comes back
+@contract("pandora.check_configuration.check_input_section", props=["C17", "C05"])
+def _(user_cfg):
+    types(user_cfg="opaque")
+    option(glue=True)
+    ensures("user_over_defaults", ncalls("update_conf") == 1,
+            call_arg_mentions("update_conf", 0, 0, "{'input': {'left': {'nodata': -9999, 'mask': None, 'classif': None, 'segm': None}, 'right': {'nodata': -9999, 'mask': None, 'classif': None, 'segm': None, 'disp': None}}}"),
+            call_arg_mentions("update_conf", 0, 1, "user_cfg"))
+    ensures("schema_by_disparity_form",
+            all(("input_configuration_schema_integer_disparity" in t) == (branch("['left']['disp'], list)") is True)
+                and ("input_configuration_schema_left_disparity_grids_right_grids" in t)
+                == (branch("['left']['disp'], list)") is False and branch("['right']['disp'], str)") is True)
+                and ("input_configuration_schema_left_disparity_grids_right_none" in t)
+                == (branch("['left']['disp'], list)") is False and branch("['right']['disp'], str)") is False)
+                for t in event_texts() if ".update(" in t),
+            len([t for t in event_texts() if ".update(" in t]) == 2,
+            any("input_configuration_schema['left'].update(" in t and "['left'])" in t for t in event_texts()),
+            any("input_configuration_schema['right'].update(" in t and "['right'])" in t for t in event_texts()))
+    ensures("schema_validated_on_the_merged_configuration_first", ncalls("validate") == 1,
+            call_arg_mentions("validate", 0, 0, "update_conf({'input': {'left': {'nodata': -9999, 'mask': None, 'classif': None, 'segm': None}, 'right': {'nodata': -9999, 'mask': None, 'classif': None, 'segm': None, 'disp': None}}}, user_cfg)"), not call_arg_mentions("validate", 0, 0, "["),
+            called_before("update", "validate"), called_before("validate", "check_disparities_from_input"),
+            called_before("validate", "check_images"),
+            any("Checker({'input': input_configuration_schema})" in t for t in event_texts()))
+    ensures("each_disparity_against_its_own_image", ncalls("check_disparities_from_input") == 2,
+            call_arg_mentions("check_disparities_from_input", 0, 0, "update_conf({'input': {'left': {'nodata': -9999, 'mask': None, 'classif': None, 'segm': None}, 'right': {'nodata': -9999, 'mask': None, 'classif': None, 'segm': None, 'disp': None}}}, user_cfg)['input']['left']['disp']"),
+            call_arg_mentions("check_disparities_from_input", 0, 1, "update_conf({'input': {'left': {'nodata': -9999, 'mask': None, 'classif': None, 'segm': None}, 'right': {'nodata': -9999, 'mask': None, 'classif': None, 'segm': None, 'disp': None}}}, user_cfg)['input']['left']['img']"),
+            call_arg_mentions("check_disparities_from_input", 1, 0, "update_conf({'input': {'left': {'nodata': -9999, 'mask': None, 'classif': None, 'segm': None}, 'right': {'nodata': -9999, 'mask': None, 'classif': None, 'segm': None, 'disp': None}}}, user_cfg)['input']['right']['disp']"),
+            call_arg_mentions("check_disparities_from_input", 1, 1, "update_conf({'input': {'left': {'nodata': -9999, 'mask': None, 'classif': None, 'segm': None}, 'right': {'nodata': -9999, 'mask': None, 'classif': None, 'segm': None, 'disp': None}}}, user_cfg)['input']['right']['img']"))
+    ensures("images_checked", ncalls("check_images") == 1,
+            call_arg_mentions("check_images", 0, 0, "update_conf({'input': {'left': {'nodata': -9999, 'mask': None, 'classif': None, 'segm': None}, 'right': {'nodata': -9999, 'mask': None, 'classif': None, 'segm': None, 'disp': None}}}, user_cfg)['input']"))
+    ensures("returns_the_merged_configuration", result_text() == "update_conf({'input': {'left': {'nodata': -9999, 'mask': None, 'classif': None, 'segm': None}, 'right': {'nodata': -9999, 'mask': None, 'classif': None, 'segm': None, 'disp': None}}}, user_cfg)")
